@@ -101,8 +101,9 @@ type c11Case struct {
 	calls []c11MC
 	f     *c11Frame
 	// raw
-	rawMode string // trunc:<n> | flip:<pos>:<val> | rand:<len> | whole
-	rawSeed uint64
+	lateCancel bool   // multi: the calls' contexts end between the request and the response
+	rawMode    string // trunc:<n> | flip:<pos>:<val> | rand:<len> | whole
+	rawSeed    uint64
 	// info
 	infoVal []byte
 	infoSrv *string
@@ -913,6 +914,11 @@ func c11RunWire(c *c11Case) (string, bool) {
 		return fmt.Sprintf("c11 broken %s region-order", c.kind), false
 	}
 	head := fmt.Sprintf("%s %d %s", c.kind, c.q, r.setupDesc(c.kind))
+	if c.lateCancel {
+		for _, cl := range r.calls {
+			cl.cancel()
+		}
+	}
 	if c.op == "frame" {
 		bf := c.f.build(c.kind, r.wireID)
 		if len(bf.bytes) > 4000 {
